@@ -1206,6 +1206,43 @@ example : (regScript Reg.empty Drv.stdScript).1.target 1 = .handler .slice := by
 example : (regScript Reg.empty Drv.stdScript).1.target 2 = .chan .slice 1000 := by decide
 example : (regScript Reg.empty Drv.stdScript).2 = [true, true] := by decide
 
+/-! ### non-vacuity of the registration / dispatch / several-instances statements -/
+
+/-- the hypotheses of `c04_sys_rounds` are met by the interleaved schedule of the example above, for instance 0
+and type 1 (two rounds) and, at once, for instance 1 and type 1 (one round of three) -/
+example :
+    let l : List (Nat × Msg) := [(0, k 0 1), (1, k 2 2), (0, ⟨2, some 1, 3⟩), (0, par 4), (1, k 0 5), (0, k 1 6), (1, oth 0 7),
+      (0, ⟨2, some 0, 8⟩), (0, k 1 9), (1, k 1 10), (0, k 0 11)]
+    (evOf 0 l).filter (kid (sys2.cfg 0) 1) = [[k 0 1, k 1 6], [k 1 9, k 0 11]].flatten ∧
+    (evOf 1 l).filter (kid (sys2.cfg 1) 1) = [[k 2 2, k 0 5, k 1 10]].flatten := by decide
+
+/-- the standard protocol's script registers every type in one form: the premise of `c04_reg_consistent` -/
+example : ∀ g ∈ Drv.stdScript, ∀ c ∈ g, ∀ t f, formOf c = some (t, f) →
+    f = (fun t => if t = 1 ∨ t = 2 then Form.slice else Form.plain) t := by
+  intro g hg c hc t f h
+  simp [Drv.stdScript] at hg
+  rcases hg with rfl | rfl <;> simp at hc <;> rcases hc with rfl | rfl <;>
+    simp [formOf, splitForm, Drv.good] at h <;> obtain ⟨rfl, rfl⟩ := h <;> simp
+
+example : (regScript Reg.empty Drv.stdScript).1.flags 2 = true ∧
+    (regScript Reg.empty Drv.stdScript).1.target 3 = .handler .plain ∧
+    (regScript Reg.empty Drv.stdScript).1.target 4 = .chan .plain 1000 := by decide
+
+/-- a slice channel of capacity 1: the first batch goes in, the second waits with the reader, one read receives both -/
+example :
+    let r : Reg := (regScript Reg.empty [[.channel (.chanPtr (.slice (.strct 2 true 1))) 1]]).1
+    let s0 : IState := { isRoot := true, nChildren := 1, reg := r }
+    let s1 := (istep s0 (k 0 1)).1
+    let s2 := (istep s1 (k 0 2)).1
+    (istep s0 (k 0 1)).2 = some (.sent [[k 0 1]]) ∧ (istep s1 (k 0 2)).2 = some .blocked ∧
+    s2.stuck = some (1, [k 0 2]) ∧ (irecv s2 1).2 = [[k 0 1], [k 0 2]] := by decide
+
+/-- a plain channel of capacity 1 that is not read: the second message is refused -/
+example :
+    let r : Reg := (regScript Reg.empty [[.channel (.chanPtr (.strct 2 true 3)) 1]]).1
+    let s0 : IState := { isRoot := true, nChildren := 2, reg := r }
+    (irun s0 [⟨3, some 0, 1⟩, ⟨3, some 1, 2⟩]).2 = [.sent [[⟨3, some 0, 1⟩]], .dropped] := by decide
+
 /-! ### the code regions the model stands for
 Regenerated from /repo's source on every run (`harness/cmd/astfacts` → `OnetVerif/Shapes.lean`): the
 calls that matter for synchronisation and data flow, the lock regions and (for decision logic) the
